@@ -176,11 +176,6 @@ func (e *engine) check(id int64, log []consul.Req) {
 		trace = e.sch.trace
 	}
 	w := witness{Desc: d, Ops: ops, Log: lines, Trace: trace}
-	if d.Kill != nil && e.killDone == "" {
-		c.Count("kill_point_not_reached", 1)
-		c.Inconclusive(fmt.Sprintf("history %d: kill point %s of worker %d call %d was never reached", d.Idx, d.Kill.Point, d.Kill.Victim, d.Kill.Call))
-		return
-	}
 
 	// UNIQ + ORDER
 	var given []opRec // operations that handed a number to somebody
@@ -254,6 +249,11 @@ func (e *engine) check(id int64, log []consul.Req) {
 				cause = "success-although-cas-failed"
 			}
 		}
+		if good {
+			c.Count("ok_calls_with_own_cas_at_consul", 1)
+		} else {
+			c.Count("ok_calls_without_cas_at_consul", 1) // coverage evidence; OWNCAS is the oracle
+		}
 		if !good {
 			c.Violation("OWNCAS", cause, fmt.Sprintf("%s#%d returned %d, but no CAS of that caller with that value was applied, answered true and delivered during the call (its writes: %v)",
 				o.Tag, o.ID, o.N, seen), id, w)
@@ -282,6 +282,13 @@ func (e *engine) check(id int64, log []consul.Req) {
 		}
 	}
 
+	// the history checks above stand on their own; the run only counts as a kill-point run
+	// if the kill point was reached
+	if d.Kill != nil && e.killDone == "" {
+		c.Count("kill_point_not_reached", 1)
+		c.Inconclusive(fmt.Sprintf("history %d: kill point %s of worker %d call %d was never reached", d.Idx, d.Kill.Point, d.Kill.Victim, d.Kill.Call))
+		return
+	}
 	e.coverage(ops, lines, trace)
 }
 
@@ -396,6 +403,24 @@ func (e *engine) coverage(ops []opRec, lines []logLine, trace []string) {
 		}
 	}
 	c.Count("callers_losing_3_cas_in_a_row", int64(lostRuns))
+	if d.Options != nil {
+		c.Count("histories_with_options", 1)
+		c.Count("histories_with_options_"+d.Kind, 1)
+		for k, v := range d.Options {
+			if v == "true" {
+				c.Count("histories_with_option_"+k, 1)
+			}
+		}
+		instances := map[string]bool{}
+		for _, l := range lines {
+			if strings.HasPrefix(l.Tag, "g") {
+				instances[l.Tag] = true
+			}
+		}
+		if len(instances) >= 2 {
+			c.Count("histories_with_options_and_2_or_more_instances", 1)
+		}
+	}
 	if e.sch != nil && e.sch.stalls > 0 {
 		c.Count("scheduler_stalls", int64(e.sch.stalls))
 	}
@@ -506,7 +531,7 @@ func (e *engine) coverage(ops []opRec, lines []logLine, trace []string) {
 	}
 	if overlap {
 		c.Count("histories_with_overlapping_calls", 1)
-		c.Nontrivial(vlib.Hash(d.Kind, d.Proxy, d.SrvRest != nil, d.W, d.Share, d.Mode, d.Policy, d.Faults, len(d.Foreign), d.Preset < 0, kp, okB, errB, nFalse > 0, nSeverAfterTrue > 0))
+		c.Nontrivial(vlib.Hash(d.Kind, d.Options["verbose"], d.Options["veryVerbose"], d.Proxy, d.SrvRest != nil, d.W, d.Share, d.Mode, d.Policy, d.Faults, len(d.Foreign), d.Preset < 0, kp, okB, errB, nFalse > 0, nSeverAfterTrue > 0))
 	}
 	var sb strings.Builder
 	ap := append([]logLine(nil), lines...)
